@@ -58,7 +58,7 @@ func (c *Check) purityWalk(fn *ssa.Function, boundary []string, mapRangeOK map[s
 			case *ssa.Range:
 				if _, isMap := x.X.Type().Underlying().(interface{ Key() interface{} }); isMap {
 				}
-				if strings.HasPrefix(x.X.Type().Underlying().String(), "map[") && !mapRangeOK[name] {
+				if strings.HasPrefix(x.X.Type().Underlying().String(), "map[") && !mapRangeOK[name] && !sortedMapRange(f) {
 					out = append(out, impurity{name, "map iteration (order-sensitive unless shown otherwise)", instrPos(c.W, ins)})
 				}
 			}
@@ -131,4 +131,72 @@ func (c *Check) Pure(fn *ssa.Function, boundary []string, mapRangeOK map[string]
 	}
 	c.OK("purity", key, desc, c.W.Pos(fn.Pos()))
 	return true
+}
+
+// sortedMapRange: fn iterates a map only to fill a local slice that is then sorted
+// (sort.Slice / slices.Sort*) before any other use: the iteration order cannot leak.
+// Checked structurally: exactly one map Range; no call other than builtins inside the
+// range loop; a sort call on a block that is dominated by the loop header and dominates
+// every later call that is not the sort itself.
+func sortedMapRange(fn *ssa.Function) bool {
+	var hdr *ssa.BasicBlock
+	n := 0
+	eachInstr(fn, func(b *ssa.BasicBlock, ins ssa.Instruction) {
+		if r, ok := ins.(*ssa.Range); ok && strings.HasPrefix(r.X.Type().Underlying().String(), "map[") {
+			n++
+			// header = block containing the Next on this range
+			if r.Referrers() != nil {
+				for _, rr := range *r.Referrers() {
+					if nx, ok := rr.(*ssa.Next); ok {
+						hdr = nx.Block()
+					}
+				}
+			}
+		}
+	})
+	if n != 1 || hdr == nil {
+		return false
+	}
+	loop := naturalLoop(fn, hdr)
+	for bi := range loop {
+		for _, ins := range fn.Blocks[bi].Instrs {
+			if ci, ok := ins.(ssa.CallInstruction); ok {
+				if _, isB := ci.Common().Value.(*ssa.Builtin); !isB {
+					return false
+				}
+			}
+		}
+	}
+	var sortBlock *ssa.BasicBlock
+	var sortIns ssa.Instruction
+	eachInstr(fn, func(b *ssa.BasicBlock, ins ssa.Instruction) {
+		if ci, ok := ins.(ssa.CallInstruction); ok {
+			cn := calleeName(ci.Common())
+			if cn == "sort.Slice" || strings.HasPrefix(cn, "slices.Sort") || cn == "sort.Sort" || cn == "sort.Stable" {
+				if hdr.Dominates(b) && !loop[b.Index] && sortBlock == nil {
+					sortBlock, sortIns = b, ins
+				}
+			}
+		}
+	})
+	if sortBlock == nil {
+		return false
+	}
+	ok := true
+	eachInstr(fn, func(b *ssa.BasicBlock, ins ssa.Instruction) {
+		ci, isCall := ins.(ssa.CallInstruction)
+		if !isCall || ins == sortIns || loop[b.Index] {
+			return
+		}
+		if _, isB := ci.Common().Value.(*ssa.Builtin); isB {
+			return
+		}
+		if !hdr.Dominates(b) || b == hdr {
+			return // before the loop
+		}
+		if !(sortBlock.Dominates(b) && (b != sortBlock || instrIndex(ins) > instrIndex(sortIns))) {
+			ok = false
+		}
+	})
+	return ok
 }
